@@ -1355,6 +1355,14 @@ static Verdict run(const Case& c)
    if(!sig.empty())
    {
       ev().count("tsan_reports");
+      // known finding exact-leave-copvec-delta-oob: a SEQUENTIAL out-of-bounds read in SPxSolverBase::getLeaveVals2
+      // (theCoPvec->delta()[idx] with idx == dimension, inside the float solves of an exact solve) that the sanitizers see as a
+      // use-after-free / overflow next to another thread's heap block; signature: the report names getLeaveVals2
+      if(knownKey("exact-leave-copvec-delta-oob") && sig.find("getLeaveVals2") != std::string::npos)
+      {
+         ev().count("excluded_known.exact-leave-copvec-delta-oob");
+         return v;
+      }
       v.fail(sig);
       return v;
    }
